@@ -404,11 +404,29 @@ def run(ctx, config="all", traits=None, floor=None):
             init, fns = FOLD_DELEGATES[fk]
             sl = Slice(v)
             sl.local(0)
+            # a private worker shared by the by-value and the by-reference impl is part of the facade
+            for hk in [c for c in list(sl.local_calls) if prog.bodies[c].get("vis") != "pub"
+                       and not (prog.impl_of(prog.bodies[c]) or {}).get("trait") and prog.bodies[c]["file"] == b["file"]][:2]:
+                hv = prog.view(hk, FACADE_CFG)
+                hs = Slice(hv)
+                hs.local(0)
+                sl.consts |= hs.consts
+                sl.local_calls = [c for c in sl.local_calls if c != hk] + hs.local_calls
+                sl.foreign_calls += hs.foreign_calls
             fn_items = sorted({norm_op(prog.bodies[c]["name"]) for c in sl.local_calls})
             # an accumulation -- Iterator::fold or an explicit loop -- that starts from the neutral element and
             # combines with the inherent operation only (how the iteration is written is not prescribed)
+            via = [c for c in sl.foreign_calls if c in ("core::iter::traits::iterator::Iterator::sum",
+                                                       "core::iter::traits::iterator::Iterator::product")]
             if sl.consts == {init} and len(fn_items) == 1 and fn_items[0] in [norm_op(f) for f in fns]:
                 rep.ok(key, where, "accumulates from %s with %s" % (init, fn_items[0]))
+            elif fn_items == [b["name"]] and not sl.consts and any(
+                    prog.bodies[c]["key"] != b["key"] and fkey(prog, prog.bodies[c]) == fk for c in sl.local_calls):
+                # `Product<&Self>` calling `<Self as Product<Self>>::product(iter.copied())`
+                rep.ok(key, where, "forwards to the sibling impl of the same trait")
+            elif via and not fn_items and (via[0].endswith("::sum")) == fk.startswith("Sum"):
+                # `iter.copied().sum()`: the by-reference impl forwards to the by-value impl of the same trait
+                rep.ok(key, where, "forwards to the sibling impl through %s" % via[0].split("::")[-1])
             else:
                 rep.violation(key, where, "%s must accumulate from %s with %s; found initial constant(s) %s, function(s) %s" % (
                     fk, init, "|".join(fns), sorted(sl.consts), fn_items))
